@@ -324,6 +324,9 @@ type hydra struct {
 	// a swampot, különben képesek lennének egyszerre létrehozni, ugyanazt a swampot. Így ha az egyik summonolja a swampot,
 	// akkor meg kell várja a másik, hogy az első visszakapja azt.
 	summoningSwamps sync.Map
+	// summonMu makes "look the per-name waiter up and count myself in" and
+	// "count myself out and drop the waiter when I was the last" atomic.
+	summonMu sync.Mutex
 
 	// interfaces
 	elysiumInterface  safeops.Safeops
@@ -369,7 +372,7 @@ func (h *hydra) GetLocker() lock.Lock {
 type SwampWaiter struct {
 	cond  *sync.Cond
 	ready bool
-	count int32 // store the number of waiting goroutines
+	count int32 // number of summoners currently holding a reference to this waiter (guarded by hydra.summonMu)
 }
 
 func newSwampWaiter() *SwampWaiter {
@@ -392,8 +395,29 @@ func (h *hydra) SummonSwamp(ctx context.Context, islandID uint64, swampName name
 	// if the ok is true then the swamp is already summoning, so we need to wait for the other process to finish the summoning process
 	// if the ok is false then the swamp is not summoning, so we can start the summoning process and store the swamp in the map
 	// immediately
+	// The waiter is reference counted: every summoner that holds a pointer to it
+	// counts, from the moment it obtains the pointer until it leaves this function,
+	// and lookup+increment as well as decrement+delete happen under summonMu. The
+	// entry is therefore removed only when nobody can be using it any more. (The
+	// previous scheme counted only goroutines that had gone to sleep and deleted
+	// the entry when that number touched zero; a summoner woken from the old
+	// waiter and a newcomer with a fresh waiter could then both be inside the
+	// critical section and each construct the swamp.)
+	h.summonMu.Lock()
 	result, _ := h.summoningSwamps.LoadOrStore(swampName.Get(), newSwampWaiter())
 	waiter, _ := result.(*SwampWaiter)
+	waiter.count++
+	h.summonMu.Unlock()
+
+	defer func() {
+		h.summonMu.Lock()
+		waiter.count--
+		// ha nincs több várakozó goroutin, akkor töröljük a várakozó mapből a swampot
+		if waiter.count == 0 {
+			h.summoningSwamps.Delete(swampName.Get())
+		}
+		h.summonMu.Unlock()
+	}()
 
 	// lezárjuk a következő kódrészt, így csak egyetlen rutin futhatja egyszerre egy domain néven belül
 	waiter.cond.L.Lock()
@@ -405,7 +429,6 @@ func (h *hydra) SummonSwamp(ctx context.Context, islandID uint64, swampName name
 			waiter.cond.L.Unlock()
 			return nil, ctx.Err() // Visszatérünk a kontextus hibaüzenetével
 		default:
-			atomic.AddInt32(&waiter.count, 1)
 			waiter.cond.Wait()
 		}
 	}
@@ -418,12 +441,6 @@ func (h *hydra) SummonSwamp(ctx context.Context, islandID uint64, swampName name
 		waiter.ready = false
 		waiter.cond.Broadcast() // Értesítjük a többi várakozót
 		waiter.cond.L.Unlock()
-		// csökkentjük a várakozó goroutinok számát
-		atomic.AddInt32(&waiter.count, -1)
-		// ha nincs több várakozó goroutin, akkor töröljük a várakozó mapből a swampot
-		if atomic.LoadInt32(&waiter.count) == 0 {
-			h.summoningSwamps.Delete(swampName.Get())
-		}
 	}()
 
 	var swampObject swamp.Swamp
